@@ -198,7 +198,7 @@ Proof.
     + cbn [app]. rewrite (num_ident_print p _ Hpa Hnd). cbn [is_some].
       rewrite (good_rest_pre true rest Hr), (good_rest_build true rest Hr). reflexivity.
     + cbn [andb] in Hpre. cbn [app].
-      rewrite (num_ident_print p (c_dash :: (pc :: pr) ++ rest) Hpa eq_refl). cbn [is_some parse_pre andb].
+      rewrite (num_ident_print p (c_dash :: pc :: pr ++ rest) Hpa eq_refl). cbn [is_some parse_pre andb].
       rewrite N.eqb_refl.
       change (pc :: pr ++ rest) with ((pc :: pr) ++ rest).
       rewrite (identifier_print true (pc :: pr) rest Hpre (good_rest_noident _ Hr)).
